@@ -48,6 +48,8 @@
 (*                            server ends the stream, e.g. its timeout)    *)
 (*   k = "gone"               the watch is answered 410 Gone: re-list      *)
 (*   k = "bookmark"           BOOKMARK event at a fresh resourceVersion    *)
+(*   k = "errevent"           ERROR event with a code other than 410 behind *)
+(*                            the previous event: nothing changes          *)
 (*   k = "churn"              thousands of metadata-only updates of an     *)
 (*                            offered object n in a row, ending in o       *)
 (*   k = "listpart"           the pending LIST is answered in pages (one   *)
